@@ -31,13 +31,16 @@ theorem absDeadline_eq (now : Nat) (us rel : Bool) (v : Int) :
 
 /-- `checked_add` fails exactly when the sum leaves i64 -/
 theorem checkedAdd_isNone (a b : Int) :
-    (checkedAdd a b).isNone = true ↔ ¬ (-9223372036854775808 ≤ a + b ∧ a + b ≤ 9223372036854775807) := by
+    (checkedAdd a b).isNone = true ↔ (a + b < -9223372036854775808 ∨ a + b > 9223372036854775807) := by
   rw [checkedAdd_eq]
   by_cases h : inI64 (a + b) = true
-  · simp [h, (inI64_iff _).mp h]
+  · have := (inI64_iff _).mp h
+    simp only [h, if_true, Option.isNone_some, Bool.false_eq_true, false_iff]
+    omega
   · have : ¬ (-9223372036854775808 ≤ a + b ∧ a + b ≤ 9223372036854775807) :=
       fun hh => h ((inI64_iff _).mpr hh)
-    simp [h, this]
+    simp only [h, Bool.false_eq_true, if_false, Option.isNone_none, true_iff]
+    omega
 
 theorem two64_eq : two64 = 18446744073709551616 := rfl
 
@@ -339,5 +342,172 @@ theorem cSet_sim {cs : CState} (h : CInv cs) (k : Nat) (v : BS) (cnd : SetCond) 
         all_goals
           simp only [if_true]
           exact ⟨_, rfl, by first | rfl | trivial | simp [wrongOpt, strOpt, oldReply, wrongType], by simp [purge_absP, wrongOpt, strOpt], ginv, gnow, gep⟩
+
+def GetExOk : GetExOpt → Prop
+  | .ex v | .px v | .exat v | .pxat v => I64 v
+  | _ => True
+
+instance : DecidablePred GetExOk := fun e => by cases e <;> unfold GetExOk <;> infer_instance
+
+/-- `execute_getex` refines M7's GETEX -/
+theorem cGetEx_sim {cs : CState} (h : CInv cs) (k : Nat) (o : GetExOpt) (he : GetExOk o) :
+    ∃ res, cGetEx cs k (getExArgsOf o) = some res ∧ Sim cs (.getex k o) res := by
+  unfold cGetEx
+  have g0 := getValue_spec h k
+  rcases hr : getValue cs k with ⟨c, ov⟩
+  rw [hr] at g0
+  obtain ⟨ginv, gsame, gnow, gep, gnx, gval, glook⟩ := g0
+  dsimp only at ginv gsame gnow gep gnx gval glook
+  have gux := unix_eq gnow gep
+  rw [← gep] at glook
+  simp only [Sim, SimF, exec, execGetEx, lookupStr]
+  rw [glook, gux, ← gsame]
+  cases ov with
+  | none => exact ⟨_, rfl, rfl, by simp [purge_absP], ginv, gnow, gep⟩
+  | some w =>
+    cases w
+    case str b =>
+      have hk : (NMap.get c.data k).isSome = true := by rw [gval]; rfl
+      have hw := wf_absP ginv.wfd
+      have hb := basetime_eq ginv
+      have ht := ginv.timeOk
+      have hdv := div_eq
+      have hu : ((unix c : Nat) : Int) = (c.epoch : Int) + (c.now : Int) := by simp [unix]
+      simp only [Option.map_some]
+      cases o with
+      | none =>
+        refine ⟨(c, .bulk b), by simp [getExArgsOf], by simp [getExPlan], ?_, ginv, gnow, gep⟩
+        simp [getExPlan, purge_absP]
+      | persist =>
+        refine ⟨({ c with exp := NMap.erase k c.exp }, .bulk b), by simp [getExArgsOf], by simp [getExPlan], ?_,
+          cinv_persist ginv, gnow, gep⟩
+        simp only [getExPlan]
+        exact dl_clear ginv gval
+      | ex s =>
+        have hp := plan_ex (unix c) s
+        simp only [getExPlan]
+        by_cases hc : 0 < s ∧ s ≤ 9223372036854775 ∧ s * 1000 + ((unix c : Nat) : Int) ≤ 9223372036854775807
+        · rw [if_pos hc] at hp
+          obtain ⟨p1, p2, p3⟩ := hc
+          have hmul : u64Mul1000 (asU64 s) = some (s.toNat * 1000) := by
+            rw [asU64_nonneg (by omega)]; exact u64Mul1000_eq (by omega)
+          have hadd : u64Add c.now (s.toNat * 1000) = some (c.now + s.toNat * 1000) := u64Add_eq (by omega)
+          have hval : (decide (s ≤ 0) || decide (s > i64MaxDiv1000) ||
+              (checkedAdd (s * 1000) (basetimeMs c)).isNone) = false := by
+            rw [Bool.eq_false_iff]
+            intro hh
+            simp only [Bool.or_eq_true, decide_eq_true_eq, checkedAdd_isNone, hb] at hh
+            try simp only [decide_eq_true_eq] at hh
+            omega
+          refine ⟨({ c with exp := NMap.insert k (c.now + s.toNat * 1000) c.exp }, .bulk b),
+            by simp [getExArgsOf, hval, hmul, hadd], by simp [hp],
+            ?_, cinv_exp ginv hk (by show c.epoch + (c.now + s.toNat * 1000) ≤ _; omega), gnow, gep⟩
+          rw [hp]
+          have := dl_set ginv gval (c.now + s.toNat * 1000)
+          have e2 : c.now + s.toNat * 1000 + c.epoch = (s * 1000 + ((unix c : Nat) : Int)).toNat := by omega
+          rw [e2] at this
+          exact this
+        · rw [if_neg hc] at hp
+          have hval : (decide (s ≤ 0) || decide (s > i64MaxDiv1000) ||
+              (checkedAdd (s * 1000) (basetimeMs c)).isNone) = true := by
+            simp only [Bool.or_eq_true, decide_eq_true_eq, checkedAdd_isNone, hb]
+            try simp only [decide_eq_true_eq]
+            have := he.1
+            omega
+          exact ⟨(c, .err .invalidExpire), by simp [getExArgsOf, hval], by simp [hp], by simp [hp, purge_absP],
+            ginv, gnow, gep⟩
+      | px s =>
+        have hp := plan_px (unix c) s
+        simp only [getExPlan]
+        by_cases hc : 0 < s ∧ s + ((unix c : Nat) : Int) ≤ 9223372036854775807
+        · rw [if_pos hc] at hp
+          obtain ⟨p1, p3⟩ := hc
+          have hadd : u64Add c.now (asU64 s) = some (c.now + s.toNat) := by
+            rw [asU64_nonneg (by omega)]; exact u64Add_eq (by omega)
+          have hval : (decide (s ≤ 0) || (checkedAdd s (basetimeMs c)).isNone) = false := by
+            rw [Bool.eq_false_iff]
+            intro hh
+            simp only [Bool.or_eq_true, decide_eq_true_eq, checkedAdd_isNone, hb] at hh
+            try simp only [decide_eq_true_eq] at hh
+            omega
+          refine ⟨({ c with exp := NMap.insert k (c.now + s.toNat) c.exp }, .bulk b),
+            by simp [getExArgsOf, hval, hadd], by simp [hp],
+            ?_, cinv_exp ginv hk (by show c.epoch + (c.now + s.toNat) ≤ _; omega), gnow, gep⟩
+          rw [hp]
+          have := dl_set ginv gval (c.now + s.toNat)
+          have e2 : c.now + s.toNat + c.epoch = (s + ((unix c : Nat) : Int)).toNat := by omega
+          rw [e2] at this
+          exact this
+        · rw [if_neg hc] at hp
+          have hval : (decide (s ≤ 0) || (checkedAdd s (basetimeMs c)).isNone) = true := by
+            simp only [Bool.or_eq_true, decide_eq_true_eq, checkedAdd_isNone, hb]
+            try simp only [decide_eq_true_eq]
+            have := he.1
+            omega
+          exact ⟨(c, .err .invalidExpire), by simp [getExArgsOf, hval], by simp [hp], by simp [hp, purge_absP],
+            ginv, gnow, gep⟩
+      | exat s =>
+        have hp := plan_exat (unix c) s
+        simp only [getExPlan]
+        by_cases hc : 0 < s ∧ s ≤ 9223372036854775
+        · rw [if_pos hc] at hp
+          obtain ⟨p1, p2⟩ := hc
+          have hrel : sat (sat (s * 1000) - (c.epoch : Int)) = s * 1000 - (c.epoch : Int) := by
+            have h1 : sat (s * 1000) = s * 1000 := sat_id (by omega) (by omega)
+            rw [h1, sat_id (by omega) (by omega)]
+          have hval : (decide (s ≤ 0) || decide (s > i64MaxDiv1000)) = false := by
+            rw [Bool.eq_false_iff]
+            intro hh
+            simp only [Bool.or_eq_true, decide_eq_true_eq] at hh
+            try simp only [decide_eq_true_eq] at hh
+            omega
+          rw [hp]
+          by_cases hr' : s * 1000 - (c.epoch : Int) ≤ 0
+          · refine ⟨(dropKey c k, .bulk b), by simp [getExArgsOf, hval, hrel, hr'], by simp, ?_,
+              cinv_drop ginv, gnow, gep⟩
+            exact dl_drop (w := .str b) (k := k) ginv (t := (s * 1000).toNat) (by simp only [unix]; omega)
+          · have hd : asU64 (s * 1000 - (c.epoch : Int)) = (s * 1000 - (c.epoch : Int)).toNat :=
+              asU64_nonneg (by omega)
+            refine ⟨({ c with exp := NMap.insert k (s * 1000 - (c.epoch : Int)).toNat c.exp }, .bulk b),
+              by simp [getExArgsOf, hval, hrel, hr', hd], by simp, ?_,
+              cinv_exp ginv hk (by show c.epoch + (s * 1000 - (c.epoch : Int)).toNat ≤ _; omega), gnow, gep⟩
+            have := dl_set ginv gval (s * 1000 - (c.epoch : Int)).toNat
+            have e2 : (s * 1000 - (c.epoch : Int)).toNat + c.epoch = (s * 1000).toNat := by omega
+            rw [e2] at this
+            exact this
+        · rw [if_neg hc] at hp
+          have hval : (decide (s ≤ 0) || decide (s > i64MaxDiv1000)) = true := by
+            simp only [Bool.or_eq_true, decide_eq_true_eq]
+            try simp only [decide_eq_true_eq]
+            omega
+          exact ⟨(c, .err .invalidExpire), by simp [getExArgsOf, hval], by simp [hp], by simp [hp, purge_absP],
+            ginv, gnow, gep⟩
+      | pxat s =>
+        have hp := plan_pxat (unix c) s
+        have := he.2
+        simp only [getExPlan]
+        by_cases hc : 0 < s ∧ s ≤ 9223372036854775807
+        · rw [if_pos hc] at hp
+          obtain ⟨p1, p2⟩ := hc
+          have hrel : sat (s - (c.epoch : Int)) = s - (c.epoch : Int) := sat_id (by omega) (by omega)
+          have hval : decide (s ≤ 0) = false := by simp; omega
+          rw [hp]
+          by_cases hr' : s - (c.epoch : Int) ≤ 0
+          · refine ⟨(dropKey c k, .bulk b), by simp [getExArgsOf, hval, hrel, hr'], by simp, ?_,
+              cinv_drop ginv, gnow, gep⟩
+            exact dl_drop (w := .str b) (k := k) ginv (t := s.toNat) (by simp only [unix]; omega)
+          · have hd : asU64 (s - (c.epoch : Int)) = (s - (c.epoch : Int)).toNat := asU64_nonneg (by omega)
+            refine ⟨({ c with exp := NMap.insert k (s - (c.epoch : Int)).toNat c.exp }, .bulk b),
+              by simp [getExArgsOf, hval, hrel, hr', hd], by simp, ?_,
+              cinv_exp ginv hk (by show c.epoch + (s - (c.epoch : Int)).toNat ≤ _; omega), gnow, gep⟩
+            have := dl_set ginv gval (s - (c.epoch : Int)).toNat
+            have e2 : (s - (c.epoch : Int)).toNat + c.epoch = s.toNat := by omega
+            rw [e2] at this
+            exact this
+        · rw [if_neg hc] at hp
+          have hval : decide (s ≤ 0) = true := by simp; omega
+          exact ⟨(c, .err .invalidExpire), by simp [getExArgsOf, hval], by simp [hp], by simp [hp, purge_absP],
+            ginv, gnow, gep⟩
+    all_goals exact ⟨_, rfl, rfl, by simp [purge_absP], ginv, gnow, gep⟩
 
 end RedisVerif.Executor
